@@ -4,6 +4,7 @@ the wrapper's own decisions are enumerated."""
 import re
 
 from engine import facts as F
+from engine import terms as T
 from engine import sx
 
 A = "fcppt::algorithm::"
@@ -617,6 +618,17 @@ def rules_join(rep, db, inline):
             if not why and got != names[1:]:
                 why = "the arguments are inserted in the order %s, expected %s" % (got, names[1:])
         (rep.fail if why else rep.ok)("JOIN", key, F.primary_site(fn), F.describe(fn)[:160], **({"why": why} if why else {"how": "%d ranges" % (len(names) - 1)}))
+        # an LVALUE first container is copied, never appended to: overload resolution must pick detail::join_impl(Container const &, ...)
+        # for it (the forwarding overload appends into its argument)
+        if k_ and k_[0].rstrip().endswith("&") and not k_[0].rstrip().endswith("&&"):
+            u = fn["_unit"]
+            cs = [n for n in F.walk(fn.get("body"), into_lambdas=False) if n.get("k") == "call" and (T.callee_qn(u, n) or "") == "fcppt::container::detail::join_impl"]
+            d0 = T.callee_decl(u, cs[0]) if len(cs) == 1 else None
+            pref = ((d0 or {}).get("prefs") or ["?"])[0]
+            okl = len(cs) == 1 and pref in ("clref", "val")
+            (rep.ok if okl else rep.fail)("JOIN", key + "|lvalue first argument", F.primary_site(fn), F.describe(fn)[:160],
+                                          **({"how": "join_impl(Container const &, ...): works on a copy"} if okl else
+                                             {"why": "for an lvalue first container join calls the join_impl overload taking it by `%s`: the elements are appended to the caller's container itself" % pref}))
 
 
 def rules_find_by(rep, db, inline):
